@@ -10,7 +10,7 @@ group raised when nothing failed, only an enclosing scope's cancellation may pas
 
 from __future__ import annotations
 
-from .. import treecheck
+from .. import treecheck, treefam
 
 PROPERTY = "C02"
 LEVEL = "exploration"
@@ -32,7 +32,7 @@ SHARD_TIMEOUT = {"quick": 300, "thorough": 1500}
 
 
 def all_cases(tier: str, seed: int):  # noqa: ANN201
-    yield from treecheck.cases("c02", tier, seed, 4000, 60000)
+    yield from treecheck.cases("c02", tier, seed, 4000, 60000, extra=treefam.failure_then_shield)
 
 
 def shards(tier: str, seed: int) -> list[dict]:
